@@ -286,6 +286,7 @@ func c13Monitor(x *concExec, api []int) {
 		lastStop, lastStart := -1, -1
 		var stopT int64
 		closeBetween := false
+		closedBeforeStop, closedSoFar := false, false
 		for _, e := range log.ev {
 			if e.kind == "api-call" && startsHunt(e.op, k) {
 				lastStart = e.seq
@@ -298,6 +299,12 @@ func c13Monitor(x *concExec, api []int) {
 			}
 			if e.kind == "api-call" && e.op == 4 && lastStop >= 0 && e.t < stopT+int64(c13Cycle+time.Second) {
 				closeBetween = true
+			}
+			if e.kind == "api-call" && e.op == 4 {
+				closedSoFar = true
+			}
+			if e.kind == "api-ret" && e.op == k+2 {
+				closedBeforeStop = closedSoFar // the handler was already closed: Close ends the loops, nothing is sent afterwards
 			}
 		}
 		// (d) StartHunt is idempotent per MAC: consecutive StartHunt calls create one loop (at most one announcement
@@ -347,7 +354,7 @@ func c13Monitor(x *concExec, api []int) {
 					}
 				}
 			}
-			if timely && completed && !closeBetween && corrective < 0 {
+			if timely && completed && !closeBetween && !closedBeforeStop && corrective < 0 {
 				x.fail("undo-missing", fmt.Sprintf("no ARP packet restoring the router's real MAC was sent to t%d within two cycles after StopHunt", k+1))
 			}
 			if corrective >= 0 && lastForged > corrective && starts[k] == 1 {
